@@ -299,7 +299,7 @@ def run(chk):
             if rid in self.allow:
                 self.c.info(rid, *a, **kw)
     import rules.C07 as c07
-    c07.run(core.Only(chk, {"C07.bracket", "C07.payload", "C07.hdr", "C07.flip", "C07.sib", "C07.blocks", "C07.size", "C07.c0nn", "C07.hdrpair"}))
+    c07.run(core.Only(chk, {"C07.bracket", "C07.payload", "C07.hdr", "C07.flip", "C07.sib", "C07.blocks", "C07.size", "C07.c0nn", "C07.hdrpair", "C07.fsize", "C07.c0nncols"}))
 
     # ---- C08.exists: "no such file" is decided by opening the file, not by a failed index
     r_ex = chk.rule("C08.exists", "OutputStream.cpp decides between starting a new unified restart file and continuing an existing one on whether the file can be OPENED: Open::Restart::read returns the null pointer only under a failed stream-open test, builds the ERst index outside any try block, and no function of OutputStream.cpp has a catch handler that completes normally.  An index error of an existing file (a header cut short by a crash) must propagate: treated as 'no such file' it makes openUnified start a new file over the earlier report steps", floor=3)
